@@ -325,7 +325,7 @@ def build(scn, rec, sim_options=None):
 
 
 def run_impl(scn, behaviour=None, sim_options=None, draw_seed=0, keep_logging=False, global_random=False,
-             extra_steps=0):
+             extra_steps=0, after_build=None):
     """Run the real simulator on the scenario. Returns a result dict in the driver's output format
     plus: table (list of rows), draws (bits of every value random.random handed out), crash."""
     rec = Recorder(scn, behaviour)
@@ -338,6 +338,8 @@ def run_impl(scn, behaviour=None, sim_options=None, draw_seed=0, keep_logging=Fa
             sim = build(scn, rec, sim_options)
             if not keep_logging:
                 quiet_logging()
+            if after_build is not None:
+                after_build()          # e.g. build (and run) another simulation before this one runs
             drive = scn["drive"]
             if drive["mode"] == "start":
                 sim.start_simulation()
